@@ -80,7 +80,7 @@ def classify(tr, line, clause):
 
 def scripts_for(ctx, quick):
     S = []
-    VARIANT_CFGS = ("g1c.cfg", "g2c.cfg", "g2d.cfg", "g3b.cfg", "g3c.cfg", "g4.cfg", "g9.cfg")
+    VARIANT_CFGS = ("g1c.cfg", "g2b.cfg", "g2c.cfg", "g2d.cfg", "g3b.cfg", "g3c.cfg", "g4.cfg", "g9.cfg")
     varkeys = set()
 
     def g(name, **kw):
@@ -89,7 +89,7 @@ def scripts_for(ctx, quick):
             varkeys.update(json.dumps(s, sort_keys=True) for s in out)
         return out
     # G1: queries: every sharing pattern of owner / target names over <= 2 record sets
-    S += g("g1.cfg", names=tset([2, 4] if quick else [2, 3, 4]), kinds=tset(["A", "NS"]), edns=tset(["off", "opts"]))
+    S += g("g1.cfg", names=tset([2, 4] if quick else [2, 3, 4]), kinds=tset(["A", "NS"]), edns=tset(["off"] if quick else ["off", "opts"]))
     S += g("g1c.cfg", names=tset([1, 3, 4]), targets=tset([3, 1]), kinds=tset(["NS"]))
     # G1b: the other rdata kinds (uncompressed signer, two names, SRV)
     S += g("g1b.cfg", names=tset([2, 4]), kinds=tset(["RRSIG", "SOA", "SRV"]), targets=tset([2, 4, 5] if not quick else [2, 4]))
@@ -98,7 +98,7 @@ def scripts_for(ctx, quick):
            rcodes=tset([0, 1, 15, 16, 2561, 4095]), bits=tset([0, 256, 33920, 34736, 560]))
     # G2b: boundary message ids (0 is what DoH/DoQ put on the wire), every opcode
     S += g("g2b.cfg", opcodes=tset([0, 4, 5]), maxrecs=1, names=tset([2]), kinds=tset(["NS"]), targets=tset([4]),
-           edns=tset(["off", "do"]), ids=tset([0, 65535]), forms=tset(["add", "del-rrset"]))
+           edns=tset(["off", "do"]), ids=tset([0, 65535]), forms=tset(["add", "del-rrset"]), bits=tset([256, 560]))
     # G2c: EDNS padding x extended rcode x EDNS version/flags/options (the padded OPT is rebuilt by the renderer)
     S += g("g2c.cfg", opcodes=tset([0, 5]), maxrecs=1, names=tset([2]), kinds=tset(["A"]), edns=tset(["v0", "do", "opts", "v1"]),
            rcodes=tset([0, 23, 4095]), pads=tset([16, 128]), forms=tset(["add"]), ids=tset([4660, 0]))
@@ -121,10 +121,10 @@ def scripts_for(ctx, quick):
     S += g("g4.cfg", opcodes=tset([0, 5]), names=tset([2, 4, 5]), targets=tset([2, 5]), kinds=tset(["NS"]),
            origins=tset([True]), forms=tset(["add", "rrset-exists", "del-rr"]))
     # G7: a 16 KiB opaque record pushes later names beyond offset 0x3FFF (not addressable by pointers)
-    S += g("g7.cfg", names=tset([2]), targets=tset([2]), kinds=tset(["NS"]), big=tset([16350, 16360]), maxrecs=3)
+    S += g("g7.cfg", names=tset([2]), targets=tset([2]), kinds=tset(["NS"]), big=tset([16360] if quick else [16350, 16360]), maxrecs=3)
     # G7b: a multi-label name that STRADDLES offset 0x4000 (starts at 0x3FFC..0x3FFF): each of its suffixes lies on
     #      either side of the pointer limit; followed by reuse of every suffix as owner and as RDATA name
-    S += g("g7b.cfg", names=tset([1, 2, 3]), targets=tset([1, 2]), kinds=tset(["NS"]), big=tset([16351, 16352, 16353, 16354]),
+    S += g("g7b.cfg", names=tset([1, 2, 3]), targets=tset([1, 2]), kinds=tset(["NS"]), big=tset([16351, 16352, 16353, 16354] if not quick else [16352, 16354]),
            maxrecs=3, secs=tset([1]), qsel=tset([False]))
     # G9: bodies larger than 512 octets and larger than the payload their own OPT advertises (512 / 1232): the parsed
     #     message is re-rendered with DEFAULT to_wire() arguments
